@@ -30,7 +30,8 @@ Definition payload_eqb (a b : payload) : bool :=
   | _, _ => false
   end.
 
-Record step := mkStep { st_req : request; st_status : Z; st_payload : payload; st_after : server }.
+Record step := mkStep { st_req : request; st_status : Z; st_payload : payload; st_after : server;
+  st_cut : bool  (* compare the status only and stop: the effects of a failing reset depend on Go's map order *) }.
 
 (** (index of the first disagreeing request, code) — code 1 status, 2 payload, 3 state; (-1, 0) = agree *)
 Fixpoint replay (e : env) (s : server) (i : Z) (steps : list step) : Z * Z :=
@@ -39,6 +40,7 @@ Fixpoint replay (e : env) (s : server) (i : Z) (steps : list step) : Z * Z :=
   | st :: r =>
     let '(resp, s') := api_step e s (st_req st) in
     if negb (status resp =? st_status st)%Z then (i, 1)
+    else if st_cut st then (-1, 0)
     else if negb (payload_eqb (pl resp) (st_payload st)) then (i, 2)
     else if negb (server_eqb s' (st_after st)) then (i, 3)
     else replay e s' (i + 1) r
